@@ -15,7 +15,10 @@ RULE = ('generated dataset directories (dense integer templates, 2-5 templates, 
         'a history of 0-6 merges, merges into an existing id, splits (incl. one-spike and emptying splits), reassignments '
         '(incl. gaps of empty ids) and id swaps; corpus of boundary cases first (last template without spikes, count ties, '
         'empty ids at both ends and on both sides of n_templates, one-spike clusters, clusters = templates with a template '
-        'without spikes at the start / in the middle / at the end), then an exhaustive small scope (every cluster vector over ids {0,1,2,4} '
+        'without spikes at the start / in the middle / at the end; stage 5: regular linear / two-column / staggered / lattice '
+        'probes with 13-32 channels where a DISTANCE TIE crosses the 12-nearest boundary, and directories holding bystander files '
+        '- KiloSort2\'s templates_ind.npy (arange rows, several dtypes) beside the dense templates, cluster_KSLabel.tsv, '
+        'cluster_group.tsv), then an exhaustive small scope (every cluster vector over ids {0,1,2,4} '
         'for fixed 4-spike template vectors), then the seeded random stream. Non-trivial = the directory loads and the '
         'curated branch is taken (or the identity branch with an unused template); distinct = distinct abstract input.')
 EXHAUSTIVE = {'quick': True, 'thorough': True}
@@ -35,10 +38,12 @@ CLAUSES = {
 TRUSTED = ['np.load/np.save, pathlib.glob (dataset files), np.linalg.inv only through the loaded wmi being re-checked against the '
            'intended integer matrix', 'np.average = sum(a*w)/sum(w) with one binary64 division, reproduced in the comparator with Coq '
            'primitive floats (PrimFloat.div) on the exact integer operands',
-           'NumPy default argsort on distance ties at the 12-closest boundary: such geometries are outside the regime (code 3)']
+           'NumPy default argsort on distance ties at the 12-closest boundary: which tied channel is kept is not modelled; on such '
+           'geometries the observed per-template channel lists are witnesses that must be legal 12-nearest selections '
+           '(Corr.legal_chans) and clauses 24/26 are evaluated on them (comparator only, no Coq soundness lemma for legal_chans)']
 ASSUMES = ['integer template values |v| <= 1024, integer inverse whitening |v| <= 64 (every float32/float64 intermediate exact)',
-           'pairwise distinct channel positions; when there are more than 12 channels, no distance tie between the 12th and '
-           '13th closest channel of any channel', 'template ids < n_templates, cluster ids >= 0, at least one spike',
+           'pairwise distinct channel positions (a distance tie between the 12th and 13th closest channel is inside the regime '
+           'since stage 5: judged relationally)', 'template ids < n_templates, cluster ids >= 0, at least one spike',
            'order of channel_ids in get_cluster_mean_waveforms is not observed (columns are compared per channel)']
 TIMEOUT = {'quick': 60, 'thorough': 120}    # a case takes ~0.1 s; generous so that machine load is never read as a hang
 
@@ -84,6 +89,21 @@ def _corpus(rng):
     out.append(G.gen_input(rng, nt=2, st=[0, 0, 1], sc=[0, 1, 1], **small))
     # merged cluster plus a template without any spike, more than 12 channels
     out.append(G.gen_input(rng, nt=4, st=[0, 0, 2, 2, 2], sc=[1, 1, 1, 2, 4], nc=13, ns=3, shanks='none', whitening='none', style='local'))
+    # stage 5 (indirect seeded changes m10, m11)
+    # a distance tie across the 12-nearest boundary: regular linear / two-column probes with more than 12 channels, merged clusters
+    out.append(G.gen_input(rng, nt=3, st=[0, 0, 0, 1, 1, 2], sc=[3, 3, 3, 3, 3, 2], nc=16, ns=2, shanks='none', whitening='none',
+                           ties=True, geometry='line', style='dense'))
+    out.append(G.gen_input(rng, nt=3, st=[0, 1, 1, 2, 2], sc=[4, 4, 4, 4, 4], nc=20, ns=2, shanks='two', whitening='perm',
+                           ties=True, geometry='gridu', style='dense'))
+    out.append(G.gen_input(rng, nt=2, st=[0, 1, 1], sc=[0, 1, 1], nc=14, ns=2, shanks='none', whitening='diag',
+                           ties=True, geometry='stag2'))
+    # bystander files: KiloSort2's templates_ind.npy (with an s) beside dense templates, curated / identity / ALF names
+    out.append(G.gen_input(rng, nt=4, st=[0, 0, 1, 2, 2, 3], sc=[4, 4, 4, 2, 5, 3], extra=[['templates_ind.npy', 'float64']],
+                           names='ks', **small))
+    out.append(G.gen_input(rng, nt=3, st=[0, 1, 1], sc=[0, 1, 1], extra=[['templates_ind.npy', 'int32'], ['cluster_KSLabel.tsv', 'text']],
+                           names='ks', **small))
+    out.append(G.gen_input(rng, nt=3, st=[0, 1, 2, 2], sc=[3, 3, 2, 0], extra=[['templates_ind.npy', 'uint32'], ['cluster_group.tsv', 'text']],
+                           names='alf', nc=5, ns=2, shanks='two', whitening='tri'))
     return out
 
 
@@ -119,6 +139,10 @@ def generate(tier, rng):
             o['unused'] = rng.choice(['start', 'middle', 'end', 'end', 'ends', 'none'])
         elif r < 0.16:
             o['last_unused'] = True
+        # stage 5: independent axes -- boundary-tied geometries (13-32 channels), bystander files in the directory
+        if rng.random() < 0.22:
+            o['ties'] = True
+        o['p_extra'] = 0.2
         cases.append({'kind': 'load', 'inp': G.gen_input(rng, **o)})
     return cases
 
@@ -148,7 +172,6 @@ def run_case(case):
         inputs_ok = (np.asarray(m.spike_templates).tolist() == inp['st'] and np.asarray(m.spike_clusters).tolist() == inp['sc']
                      and np.array_equal(np.asarray(m.wmi), np.array(wmi, dtype=float))
                      and np.array_equal(np.asarray(m.sparse_templates.data), np.array(inp['tmpl'], dtype=float))
-                     and m.sparse_templates.cols is None
                      and np.array_equal(np.asarray(m.channel_shanks), np.array(inp['shanks'] or [0] * nc))
                      and np.array_equal(np.asarray(m.channel_positions), np.array(inp['pos'], dtype=float)))
         data = np.asarray(m.sparse_clusters.data)
@@ -159,7 +182,14 @@ def run_case(case):
             'ncl': int(m.n_clusters), 'nt': int(m.n_templates),
             'data': [[[D.tok(float(v)) for v in row] for row in t] for t in data],
             'inputs_ok': bool(inputs_ok),
+            # stage 5: dense storage is an OBSERVATION (a dense templates file without template_ind.npy must be loaded as
+            # dense whatever else lies in the directory), not part of the harness self-check
+            'dense': bool(m.sparse_templates.cols is None),
         }
+        # stage 5: the per-template channel lists (witnesses for geometries with a distance tie at the 12-nearest boundary)
+        for unw, key in ((False, 'tch_w'), (True, 'tch_u')):
+            obs[key] = [(int(t), [int(c) for c in np.asarray(m.get_template(t, unwhiten=unw).channel_ids).tolist()])
+                        for t in sorted(set(inp['st']))]
         for unw, key in ((False, 'mean_w'), (True, 'mean_u')):
             l = []
             for j, c in enumerate(sorted(set(inp['sc']))):
@@ -196,9 +226,11 @@ def encode(case, obs):
     if obs[0] == 'crash':
         return cin, 'ObsCrash'
     o = obs[1]
-    cobs = '(ObsLoaded (mkobs %s %s %s %s %s %s %s %s))' % (
+    tch = lambda l: q.lst(l, lambda kv: '(%s, %s)' % (q.z(kv[0]), q.zl(kv[1])))
+    cobs = '(ObsLoaded (mkobs %s %s %s %s %s %s %s %s %s %s %s))' % (
         q.lst(o['mm'], lambda kv: '(%s, %s)' % (q.z(kv[0]), q.zl(kv[1]))), q.zl(o['nan']), q.z(o['ncl']), q.z(o['nt']),
-        q.lst(o['data'], lambda t: q.lst(t, _toks)), _mobs(o['mean_w']), _mobs(o['mean_u']), q.b(o['inputs_ok']))
+        q.lst(o['data'], lambda t: q.lst(t, _toks)), _mobs(o['mean_w']), _mobs(o['mean_u']), q.b(o['inputs_ok']),
+        tch(o['tch_w']), tch(o['tch_u']), q.b(o['dense']))
     return cin, cobs
 
 
@@ -225,6 +257,8 @@ def dist(case, obs):
     out.append('shanks=%s' % ('none' if inp['shanks'] is None else len(set(inp['shanks']))))
     out.append('whitening=%s' % ('none' if inp['wmi'] is None else ('file' if inp['opts']['wmi_file'] else 'inverted')))
     out.append('names=' + inp['opts']['names'])
+    out.append('boundary_tie=%s' % G.boundary_tie(inp['pos']))
+    out.append('extra=' + ('+'.join(sorted(e[0] for e in inp['opts'].get('extra') or [])) or 'none'))
     out.append('id_dtype=' + inp['opts']['id_dtype'])
     if curated:
         mx = max(inp['sc'])
@@ -288,7 +322,7 @@ def shrink(case):
         c = copy.deepcopy(inp)
         c['tmpl'] = [[row[:-1] for row in t] for t in inp['tmpl']]
         c['pos'] = inp['pos'][:-1]
-        if G.boundary_tie(c['pos']):
+        if G.boundary_tie(c['pos']) and not G.boundary_tie(inp['pos']):
             pass
         else:
             if c['shanks'] is not None:
@@ -318,6 +352,15 @@ def shrink(case):
             tm = copy.deepcopy(inp['tmpl'])
             tm[t] = [[(v // 2 if v > 0 else -((-v) // 2)) for v in row] for row in tm[t]]
             yield mk(tmpl=tm)
+    # drop the bystander files, one at a time
+    for i in range(len(inp['opts'].get('extra') or [])):
+        ex = inp['opts']['extra'][:i] + inp['opts']['extra'][i + 1:]
+        oo = dict(inp['opts'])
+        if ex:
+            oo['extra'] = ex
+        else:
+            oo.pop('extra')
+        yield mk(opts=oo)
     # plain file options
     o = inp['opts']
     if (o['names'], o['vec2d'], o['id_dtype'], o['tmpl_dtype']) != ('ks', False, 'uint32', 'float32'):
